@@ -298,12 +298,67 @@ fn large_counts(thorough: bool) -> Vec<(u32, usize)> {
     let mut v = vec![(17u32, 9_999usize), (17, 99_999), (17, 100_000), (4, 99_999), (4, 100_000)];
     if thorough {
         v.extend([(17, 999_999), (17, 1_000_000), (4, 1_000_000), (21, 1_234_567)]);
+        // past the range of a 32-bit signed counter (a receiver that hears 1000 frames a second gets there in 25
+        // days); streamed, about 40 minutes on one core - the other workers are long finished by then
+        v.push((11, (1usize << 31) + 5));
     }
     v
 }
 
+/// `n` all-call replies of one aircraft streamed through a FIFO in portions of 2^20 lines, the clock moved
+/// before one last frame of another aircraft: the counter line must read DF11:n+1
+fn huge_count_case(ctx: &mut Ctx, k: usize, n: usize) {
+    use crate::run::{TimedStep, run_timed_iter};
+    let line = { let mut l = frames::df11(5, A, 0).hex().into_bytes(); l.push(b'\n'); l };
+    let block: Vec<u8> = line.iter().copied().cycle().take(line.len() << 20).collect();
+    let full = n >> 20;
+    let rest = n & ((1 << 20) - 1);
+    let last = join_lines(&[frames::df11(5, B, 0).hex().into_bytes()]);
+    let mut i = 0usize;
+    let mut steps = std::iter::from_fn(|| {
+        i += 1;
+        if i <= full {
+            Some(TimedStep { bytes: block.clone(), advance_ms: 0 })
+        } else if i == full + 1 {
+            Some(TimedStep { bytes: block[..rest * line.len()].to_vec(), advance_ms: 10_000 })
+        } else if i == full + 2 {
+            Some(TimedStep { bytes: last.clone(), advance_ms: 0 })
+        } else {
+            None
+        }
+    });
+    let cfg = Cfg::named(&["-i", "", "-c", "-u", "3"], "hugecount.fifo");
+    let t = new_table();
+    crate::run::describe_current(&format!("C16 {n} frames of one format, streamed"));
+    // two thousand million lines: the per-line log statements (installed at trace level in every worker) are
+    // switched off for this one run, as they are in the real binary without -l
+    let level = log::max_level();
+    log::set_max_level(log::LevelFilter::Off);
+    let (rep, out) = capture_stdout(|| run_timed_iter(&cfg, &mut steps, &t, |_| {}));
+    log::set_max_level(level);
+    ctx.eval();
+    if let Some(m) = rep.machinery {
+        ctx.machinery(format!("C16 huge count: {m}"));
+        return;
+    }
+    let blocks = cli::blocks(&out);
+    let got = blocks.last().and_then(|b| block_counter_line(b));
+    let want = format!("DF11:{}", n as u64 + 1);
+    if !rep.outcome.is_ok() || got.as_deref() != Some(want.as_str()) {
+        ctx.violation(
+            "C16/large-count",
+            &format!("{n} x DF11"),
+            || format!("{n} DF11 of one aircraft, then (10 s later) one more DF11: expected the counter line '{want}', printed {got:?} (reader {})", rep.outcome.label()),
+            || json!({"large_count": k}),
+        );
+    }
+}
+
 fn large_count_case(ctx: &mut Ctx, k: usize, df: u32, n: usize) {
     use crate::run::{TimedStep, run_timed};
+    if n > (1 << 30) {
+        return huge_count_case(ctx, k, n);
+    }
     let mk = |df: u32, i: u32| -> Vec<u8> {
         match df {
             17 => frames::df17(5, A, frames::me_velocity(&frames::Vel { st: 1, vew: 1 + i % 700, vns: 5, vr: 1 + i % 100, ..Default::default() })),
